@@ -172,8 +172,12 @@ func (memPool *MemPool) removeTransaction(hash bitcoin.Hash32) bool {
 				if len(otherHashes) > 1 {
 					// Remove this outpoint hash from the list
 					for i, otherHash := range otherHashes {
-						if otherHash.Equal(outpointHash) {
-							otherHashes = append(otherHashes[:i], otherHashes[i+1:]...)
+						if otherHash.Equal(&hash) {
+							// Build a new list so a caller iterating the old one is not disturbed.
+							remaining := make([]bitcoin.Hash32, 0, len(otherHashes)-1)
+							remaining = append(remaining, otherHashes[:i]...)
+							remaining = append(remaining, otherHashes[i+1:]...)
+							memPool.inputs[*outpointHash] = remaining
 							break
 						}
 					}
